@@ -733,7 +733,16 @@ class HTTPConnectionPool(ConnectionPool, RequestMethods):
         else:
             # Neither the fragment nor the userinfo is part of a request target
             # (absolute-form included); _encode_target() cannot see either.
-            url = to_str(parsed_url._replace(fragment=None, auth=None).url)
+            # Like the origin-form target and Host header of a direct request,
+            # it says "/" for an empty path and leaves out the default port.
+            port = parsed_url.port
+            if port == port_by_scheme.get(parsed_url.scheme or ""):
+                port = None
+            url = to_str(
+                parsed_url._replace(
+                    fragment=None, auth=None, port=port, path=parsed_url.path or "/"
+                ).url
+            )
 
         conn = None
 
